@@ -3,6 +3,7 @@ import JominiModel.Spec.TextReader
 import JominiModel.Proofs.SwarReader
 import JominiModel.Proofs.TextReader
 import JominiModel.Proofs.TextReaderStream
+import JominiModel.Proofs.TextReaderFast
 import JominiModel.Generated.Tables
 /-
 C07 — the streaming text reader is independent of read chunking and buffer size.
@@ -17,14 +18,16 @@ Proved here (about the model `Model/TextReader.lean`):
 * no token is split: a token decided inside a window is the token of every extension;
 * one call of `next_opt_fallback` under EVERY fault-free schedule returns what the byte-at-a-time
   reference step over the whole remaining input returns (buffer larger than the remaining input);
-* whole stream, fast path out of play: streamed tokens = from-slice tokens, same terminal outcome,
-  final position = |data| at a clean end, for every fault-free schedule and every cap > |data|.
+* whole stream, fast path out of play and in play: streamed tokens = from-slice tokens, same terminal outcome,
+  final position = |data| at a clean end, for every fault-free schedule and every cap > |data|;
+* the fast path of `next_opt` returns the token the fallback scan decides (up to the one skipped space).
 
 Not proved (decided by the correspondence run + implementation oracle only), full statements kept below:
 * `C07_fallback_schedule_independent` for every capacity that merely *fits* the longest token/comment
   (the proved `_partial` needs cap > |data|; missing: relating every refill's carry to the longest item so that
   `fill_buf` never reports `BufferFull`);
-* `C07_fast_eq_fallback`, hence `C07_stream_eq_slice` with the fast path in play;
+* `C07_stream_eq_slice` for every capacity that fits (the proved `_partial` needs cap > |data|; the fast path IS
+  covered: `C07_fast_eq_fallback` is proved);
 * `C07_overflow_is_error`.
 -/
 namespace Jomini.Props.C07
@@ -192,13 +195,83 @@ theorem C07_two_schedules_agree (r1 r2 : Reader) (pos : Nat) (bom : Bom) (d : By
   let h := lexFb_agree n r1 r2 pos bom d f1 f2 [] h1 h2 hf1 hf2
   ⟨h.1, h.2.1⟩
 
+/-! ### the fast path -/
+
+/-- **`next_opt`'s fast path is unobservable up to one skipped space.**  For every reader state either `next_opt`
+defers to `next_opt_fallback`, or both return the same token and leave the same reader — except that after a
+fast-path unquoted scalar followed by a space the fast path has consumed that one space as well (position + 1; the
+next token is the same, see `C07_stream_eq_slice_partial`).  In particular no 8-byte read of the fast path leaves the
+window (`ub` is impossible) and no `advance_to` assertion fires. -/
+theorem C07_fast_eq_fallback (fuel : Nat) (r : Reader) (hf : 1 ≤ fuel) :
+    nextOpt fuel r = nextOptFallback fuel r ∨
+    ∃ t r1 r2, nextOpt fuel r = .ok r1 (some t) ∧ nextOptFallback fuel r = .ok r2 (some t) ∧
+      (r1 = r2 ∨ (r2.win = 32 :: r1.win ∧ r1.consumed = r2.consumed + 1 ∧ r1.prior = r2.prior ∧
+        r1.src = r2.src ∧ r1.bom = r2.bom ∧ r1.cap = r2.cap)) := by
+  rcases nextOpt_vs_scan fuel r with h | ⟨adv, t, r1, hscan, hres, hadv⟩
+  · left; exact h
+  · right
+    obtain ⟨f, rfl⟩ : ∃ f, fuel = f + 1 := ⟨fuel - 1, by omega⟩
+    have hfb : nextOptFallback (f + 1) r =
+        match advance r adv with
+        | some r' => .ok r' (some t)
+        | none => .panic := by
+      unfold nextOptFallback
+      rw [run_fallback_unfold, hscan]
+      rfl
+    rcases hadv with ha | ⟨h32, ha⟩
+    · exact ⟨t, r1, r1, hres, by rw [hfb, ha], Or.inl rfl⟩
+    · have hk : adv + 1 ≤ r.win.length := by
+        unfold TextReader.advance at ha; split at ha
+        · assumption
+        · simp at ha
+      have ha2 : advance r adv = some { r with win := r.win.drop adv, consumed := r.consumed + adv } := by
+        simp [TextReader.advance]; omega
+      have hr1 : r1 = { r with win := r.win.drop (adv + 1), consumed := r.consumed + (adv + 1) } := by
+        simp only [TextReader.advance, hk, if_true, Option.some.injEq] at ha; exact ha.symm
+      refine ⟨t, r1, _, hres, by rw [hfb, ha2], Or.inr ?_⟩
+      subst hr1
+      refine ⟨?_, by simp; omega, rfl, rfl, rfl, rfl⟩
+      simp only
+      rw [drop_of_getElem? h32]
+
+-- the quirk is real: `ab cdefghijk…` on the fast path consumes 3 bytes, on the fallback path 2
+example : (match nextOpt 5 (fromSlice [97, 98, 32, 99, 100, 101, 102, 103, 104, 105, 106, 107]) with
+    | .ok r' (some t) => (t, r'.consumed) | _ => (.open_, 0)) = (.unquoted [97, 98], 3) := by decide +kernel
+example : (match nextOptFallback 5 (fromSlice [97, 98, 32, 99, 100, 101, 102, 103, 104, 105, 106, 107]) with
+    | .ok r' (some t) => (t, r'.consumed) | _ => (.open_, 0)) = (.unquoted [97, 98], 2) := by decide +kernel
+
+/-- **C07, whole reader (fast path in play), partial.**  For every input, every fault-free read schedule and every
+buffer capacity larger than the input, the streaming reader (`streamTokens`: `next` until it stops) produces exactly
+the token sequence of the zero-copy from-slice reader, ends in the same outcome (clean end, or the same error), and
+at a clean end both final positions equal the input length.
+
+Full statement (`C07_stream_eq_slice`, not proved): the same under `need data ≤ cap` (every token, comment and
+look-ahead fits) instead of `|data| < cap`; see `C07_fallback_schedule_independent_partial` for what is missing. -/
+theorem C07_stream_eq_slice_partial (data : Bytes) (cap : Nat) (sched : List Step)
+    (hcap : data.length < cap) (hw : WfSched sched) :
+    (streamTokens cap sched data).toks = (sliceTokens data).toks ∧
+    (streamTokens cap sched data).out = (sliceTokens data).out ∧
+    ((streamTokens cap sched data).out = .end_ →
+      (streamTokens cap sched data).final.position = data.length ∧ (sliceTokens data).final.position = data.length) := by
+  obtain ⟨h1, h2⟩ := C07_start_related cap sched data hcap hw
+  have := lexAll_agree (fuelFor data) _ _ 0 .unknown data (fuelFor data + 2 * sched.length) (fuelFor data) []
+    (Or.inl h1) (Or.inl h2) (by simp [fuelFor]; omega) (by simp [fuelFor])
+  simpa [streamTokens, sliceTokens] using this
+
+example : (streamTokens 64 [.give 1, .give 1, .give 3, .repeat_ 2]
+    [97, 61, 34, 98, 92, 34, 34, 32, 35, 99]).toks = [.unquoted [97], .op .eq, .quoted [98, 92, 34]] := by
+  decide +kernel
+
+/-- the streamed run never ends in `panic`, `ub` or `fuel` when the slice run does not (they have the same outcome),
+and the from-slice run itself: every call is the reference step (`C07_fallback_call_eq_spec` with `rest = []`). -/
+theorem C07_stream_outcome_eq (data : Bytes) (cap : Nat) (sched : List Step)
+    (hcap : data.length < cap) (hw : WfSched sched) :
+    (streamTokens cap sched data).out = (sliceTokens data).out :=
+  (C07_stream_eq_slice_partial data cap sched hcap hw).2.1
+
 /-
 Not proved; statements kept as the obligations (all three are exercised on the real code by the L3 oracles
 `stream-vs-slice`, `slice-vs-reference`, `overflow-not-error`, `full-although-fits` of harness/src/props/c07.rs):
-
-theorem C07_fast_eq_fallback (fuel : Nat) (r : Reader) (h : 1 ≤ fuel) :
-    nextOpt fuel r and nextOptFallback fuel r return the same token; the readers they leave are equal, or differ by
-    exactly one consumed space (the "advance one on space" quirk after a fast-path unquoted scalar).
 
 theorem C07_stream_eq_slice (data cap sched) (hfit : need data ≤ cap) (hw : WfSched sched) :
     (streamTokens cap sched data).toks = (sliceTokens data).toks ∧ same outcome ∧
